@@ -3,7 +3,8 @@
 //! for every position k of that list and every errno, the pair is re-run in a fresh directory with the k-th call failing.
 //!
 //! Case fields: `op  state  k  errno`   (k = `ff` and errno = `-` for the fault-free trace case)
-//! Observation of a fault case:   `err | ok:same | ok:diff`  `|`  `<class>:<path>:<fault-free result of that call>`
+//! Observation of a fault case:   `err | ok:same | ok:diff`  `|`  `<class>:<path>:<fault-free result of that call>`  `|`  `<occ>`
+//!     (occ = how many earlier std calls of the fault-free trace issue a libc call with the same class, path and result)
 //!     (ok:same = the call returned Ok / the phase exited 0 and the directory snapshot equals the fault-free one)
 //! Observation of a trace case:   `<result>|<sorted set of class:path:result>|<prepared state>|<final state>`
 //!     states as canonical snapshots: `D path`, `F path token` (layer TOML as parsed document, phase outputs by recognised payload).
@@ -203,9 +204,42 @@ fn fault_free(op: &str, state: &str) -> Result<(RunOut, String), String> {
     cell.get_or_init(|| { let r = run_child(op, state, None)?; let pre = prepared_snapshot(op, state)?; Ok((r, pre)) }).clone()
 }
 
-fn known_pair(op: &str, state: &str) -> bool {
-    LAYER_PAIRS.iter().chain(PHASE_PAIRS.iter()).any(|(o, ss)| *o == op && ss.contains(&state))
+/// Which std call of its kind the k-th libc call belongs to: the number of earlier std calls that issue a libc call with the
+/// same (class, path, result). Calls on a file descriptor (write, read, fchmod, copy) belong to the open that produced it.
+fn occurrence(log: &[Call], k: usize) -> usize {
+    let c = &log[k];
+    if matches!(c.class.as_str(), "write" | "read" | "fchmod" | "copy" | "sendfile") {
+        let mut opens_with_class: Vec<usize> = vec![];
+        let mut cur_open: Option<usize> = None;
+        for (i, x) in log[..=k].iter().enumerate() {
+            if x.path != c.path { continue; }
+            if x.class.starts_with("open") { if x.res == "ok" { cur_open = Some(i); } }
+            else if x.class == c.class && x.res == c.res { if let Some(o) = cur_open { if !opens_with_class.contains(&o) { opens_with_class.push(o); } } }
+        }
+        opens_with_class.len().saturating_sub(1)
+    } else {
+        log[..k].iter().filter(|x| x.class == c.class && x.path == c.path && x.res == c.res).count()
+    }
 }
+
+const LAYER_STATES: &[&str] = &["absent", "orphan", "bare", "min", "typed", "full", "invalid", "broken"];
+const PHASE_STATES: &[&str] = &["clean", "existing"];
+
+/// quick: the listed representative pairs; thorough: every operation on every prepared state
+/// (the `LayerRef` writes need a successful `cached_layer` prelude, which a broken `<layer>.toml` does not give)
+fn pairs(thorough: bool) -> Vec<(String, String)> {
+    let mut v = vec![];
+    for (op, states) in LAYER_PAIRS.iter().chain(PHASE_PAIRS.iter()) {
+        let all: &[&str] = if is_phase(op) { PHASE_STATES } else { LAYER_STATES };
+        for st in if thorough { all } else { *states } {
+            if op.starts_with('w') && *st == "broken" { continue; }
+            v.push((op.to_string(), st.to_string()));
+        }
+    }
+    v
+}
+
+fn known_pair(op: &str, state: &str) -> bool { pairs(true).iter().any(|(o, s)| o == op && s == state) }
 
 fn run_case(f: &[String]) -> String {
     if f.len() != 4 || !known_pair(&f[0], &f[1]) { return "bad-fields".into(); }
@@ -217,41 +251,39 @@ fn run_case(f: &[String]) -> String {
         return format!("{}|{}|{}|{}", if ff.result.starts_with("err") { "err" } else { ff.result.as_str() }, join(",", &calls), pre, ff.canon);
     }
     let (Ok(k), Some(e)) = (f[2].parse::<usize>(), errno_num(&f[3])) else { return "bad-fields".into() };
-    if k >= ff.log.len() { return "nofault|-".into(); }
+    if k >= ff.log.len() { return "nofault|-|0".into(); }
     let expected = &ff.log[k];
     let r = match run_child(op, state, Some((k, e))) { Ok(r) => r, Err(e) => return format!("harness-error:{}", e.replace(['|', '\t'], " ")) };
     // the injected call must be the k-th call of the fault-free run (the runs are deterministic up to the fault)
     let hit = r.log.get(k).filter(|c| c.inj && c.class == expected.class && c.path == expected.path);
-    if hit.is_none() || r.log[..k].iter().zip(&ff.log[..k]).any(|(a, b)| a.class != b.class || a.path != b.path) { return format!("nondeterministic|{}:{}:{}", expected.class, expected.path, expected.res); }
+    if hit.is_none() || r.log[..k].iter().zip(&ff.log[..k]).any(|(a, b)| a.class != b.class || a.path != b.path) { return format!("nondeterministic|{}:{}:{}|{}", expected.class, expected.path, expected.res, occurrence(&ff.log, k)); }
     let res = if r.result.starts_with("err") { "err" } else if r.result != "ok" { "weird" } else if r.raw == ff.raw { "ok:same" } else { "ok:diff" };
-    format!("{}|{}:{}:{}", res, expected.class, expected.path, expected.res)
+    format!("{}|{}:{}:{}|{}", res, expected.class, expected.path, expected.res, occurrence(&ff.log, k))
 }
 
 fn generate(tier: &str, _seed: u64, emit: &mut dyn FnMut(Case)) {
-    let thorough = tier == "thorough";
-    let mut idx = 0usize;
-    for (op, states) in LAYER_PAIRS.iter().chain(PHASE_PAIRS.iter()) {
-        for state in states.iter() {
-            let mk = |k: String, e: &str, tags: Vec<(&str, String)>, nt: bool| Case {
-                fields: vec![op.to_string(), state.to_string(), k, e.to_string()],
-                tags: tags.into_iter().map(|(a, b)| (a.to_string(), b)).chain([("op".to_string(), op.to_string())]).collect(), nontrivial: nt };
-            emit(mk("ff".into(), "-", vec![("kind", "trace".into())], false));
-            let Ok((ff, _)) = fault_free(op, state) else { continue };
-            for (k, c) in ff.log.iter().enumerate() {
-                // quick: the three errnos rotate over the positions (every position is failed once, every errno at every
-                // class of call); thorough: every position with every errno
-                for (j, (en, _)) in ERRNOS[..3].iter().enumerate() {
-                    if thorough || (idx + k) % 3 == j { emit(mk(k.to_string(), en, vec![("kind", "fault".into()), ("class", c.class.clone()), ("errno", en.to_string()), ("ffres", c.res.clone())], true)); }
-                }
-                // ENOENT only at delete-type calls: shows where the deliberate tolerance sits (tagged, excluded from the property)
-                if delete_class(&c.class) { emit(mk(k.to_string(), "ENOENT", vec![("kind", "enoent-at-delete".into()), ("class", c.class.clone()), ("errno", "ENOENT".into()), ("ffres", c.res.clone())], false)); }
+    for (op, state) in pairs(tier == "thorough") {
+        let mk = |k: String, e: &str, tags: Vec<(&str, String)>, nt: bool| Case {
+            fields: vec![op.clone(), state.clone(), k, e.to_string()],
+            tags: tags.into_iter().map(|(a, b)| (a.to_string(), b)).chain([("op".to_string(), op.clone()), ("state".to_string(), state.clone())]).collect(), nontrivial: nt };
+        emit(mk("ff".into(), "-", vec![("kind", "trace".into())], false));
+        let Ok((ff, _)) = fault_free(&op, &state) else { continue };
+        for (k, c) in ff.log.iter().enumerate() {
+            // every position of the real call list with every errno of the quantifier
+            for (en, _) in &ERRNOS[..3] {
+                emit(mk(k.to_string(), en, vec![("kind", "fault".into()), ("class", c.class.clone()), ("errno", en.to_string()), ("ffres", c.res.clone())], true));
             }
-            idx += 1;
+            // ENOENT only at delete-type calls: shows where the deliberate tolerance sits (tagged; excluded from the property)
+            if delete_class(&c.class) { emit(mk(k.to_string(), "ENOENT", vec![("kind", "enoent-at-delete".into()), ("class", c.class.clone()), ("errno", "ENOENT".into()), ("ffres", c.res.clone())], false)); }
         }
     }
 }
 
+unsafe extern "C" { fn umask(mask: u32) -> u32; }
+
 fn main() {
+    // the model's directory modes (0o755 for a created directory) assume the usual umask; the children inherit it
+    unsafe { umask(0o022); }
     ensure_shim();
     main_loop_jobs("c12", 14, &generate, &run_case);
 }
